@@ -7,6 +7,7 @@ import (
 	"encoding/json"
 	"fmt"
 	"os"
+	"runtime/debug"
 	"strconv"
 
 	"verif/harness/core"
@@ -70,7 +71,7 @@ func main() {
 	func() {
 		defer func() {
 			if r := recover(); r != nil {
-				ctx.Violation(core.Replay{Kind: "harness-panic", Summary: fmt.Sprintf("harness panicked: %v", r), NoInputFound: true})
+				ctx.Violation(core.Replay{Kind: "harness-panic", Summary: fmt.Sprintf("harness panicked: %v", r), Input: string(debug.Stack()), NoInputFound: true})
 			}
 		}()
 		f(ctx)
